@@ -49,7 +49,7 @@ meta = {
     "id": name, "property": prop, "files_changed": files,
     "what_changed": section([r"\*\*change", r"^#* *what", r"changed"]) or " ".join(readme.split())[:600],
     "needs_to_manifest": section([r"\*\*needs", r"manifest", r"needs"]),
-    "origin": "written by a fresh sub-agent that was given only the text of the property and a scratch worktree of /repo" + (" (second round: told which code sites the first round had used, asked for different mechanisms)" if var in ("C", "D") else "") + (" (third round: told the sites of both earlier rounds, asked for state / aliasing / history / boundary mechanisms)" if var in ("E", "F") else "") + (" (fourth round: told the sites of all earlier rounds, asked for what a thorough randomized checker would still miss)" if var in ("G", "H") else "") + (" (fifth round: told the sites of all earlier rounds; coincidences, identity, overflow, nil vs empty, extreme legal option values, re-entrancy)" if var in ("I", "J") else "") + (" (sixth round: told the sites of all earlier rounds; helpers the anchors depend on, hand-over between components, alternative entry points, second use of an object, options that act together, caller-supplied orders)" if var in ("K", "L") else "") + (" (seventh round: told the sites of all earlier rounds; fast paths for special shapes, memoisation, integer conversions, sort stability, cleanup on one return path, boundaries moved by one, nil vs empty vs zero-valued arguments, second calls, receivers copied by value)" if var in ("M", "N") else "") + (" (eighth round: told the sites of all earlier rounds; state left behind after an error or a refused operation, asymmetries between twin code paths, exact boundaries of ages / generations / counters, rarely used options and their combinations, formatting and parsing of unusual numbers, shared backing arrays)" if var in ("O", "P") else "") + (" (ninth round: told the sites of all earlier rounds)" if var in ("Q", "R") else ""),
+    "origin": "written by a fresh sub-agent that was given only the text of the property and a scratch worktree of /repo" + (" (second round: told which code sites the first round had used, asked for different mechanisms)" if var in ("C", "D") else "") + (" (third round: told the sites of both earlier rounds, asked for state / aliasing / history / boundary mechanisms)" if var in ("E", "F") else "") + (" (fourth round: told the sites of all earlier rounds, asked for what a thorough randomized checker would still miss)" if var in ("G", "H") else "") + (" (fifth round: told the sites of all earlier rounds; coincidences, identity, overflow, nil vs empty, extreme legal option values, re-entrancy)" if var in ("I", "J") else "") + (" (sixth round: told the sites of all earlier rounds; helpers the anchors depend on, hand-over between components, alternative entry points, second use of an object, options that act together, caller-supplied orders)" if var in ("K", "L") else "") + (" (seventh round: told the sites of all earlier rounds; fast paths for special shapes, memoisation, integer conversions, sort stability, cleanup on one return path, boundaries moved by one, nil vs empty vs zero-valued arguments, second calls, receivers copied by value)" if var in ("M", "N") else "") + (" (eighth round: told the sites of all earlier rounds; state left behind after an error or a refused operation, asymmetries between twin code paths, exact boundaries of ages / generations / counters, rarely used options and their combinations, formatting and parsing of unusual numbers, shared backing arrays)" if var in ("O", "P") else "") + (" (ninth round: told the sites of all earlier rounds; two things that must come together - option pairs, an option with a shape of genome or population, helper packages the anchored code merely calls -, performance shortcuts such as early returns, reused scratch buffers, caches not invalidated on one path and coarser sorts, exact counts and last elements, second or third generation, orders of calls on two objects, values that went through a write / read cycle, rounding direction, swallowed errors)" if var in ("Q", "R") else ""),
     "confirmed_in_scratch_worktree": {
         "script": "tools/confirm_seeded.sh", "go_build": kv.get("build"), "unit_suites (./neat/... ./experiment/...)": kv.get("unit"),
         "examples (./examples/...)": kv.get("examples"), "demonstration_on_unchanged_HEAD": kv.get("demo_head"),
